@@ -218,6 +218,9 @@ pub struct Job {
     /// decode: call read() again after end of stream / after an error and report what happens
     #[serde(default)]
     pub probe: bool,
+    /// decode: number of further read() calls (7-byte buffer) after the first error whose data is checked against `expect`
+    #[serde(default)]
+    pub probe_more: u32,
 }
 
 #[derive(Clone, Default)]
@@ -312,6 +315,7 @@ struct DecOut {
     ok_after_err: bool,
     eof_then_data: bool,
     unit_count: Option<u64>,
+    bytes_after_err: u64,
 }
 
 /// Set while the driver calls a reader again after it returned an error (value: that error).
@@ -320,9 +324,9 @@ static AFTER_ERR: Mutex<Option<String>> = Mutex::new(None);
 /// Consecutive `Interrupted` results of the reader under test before the case is reported as stuck.
 const INTR_STUCK: u64 = 10_000;
 
-fn drive<R: Read>(r: &mut R, bufs: &[usize], limit: u64, acc: &mut OutAcc, buf: &mut [u8], probe: bool) -> DecOut {
+fn drive<R: Read>(r: &mut R, bufs: &[usize], limit: u64, acc: &mut OutAcc, buf: &mut [u8], probe: bool, probe_more: u32) -> DecOut {
     let mut o = DecOut { outcome: "ok", err: None, stage: "read", api_reads: 0, intr_returns: 0, reads_after_err: 0,
-                         ok_after_err: false, eof_then_data: false, unit_count: None };
+                         ok_after_err: false, eof_then_data: false, unit_count: None, bytes_after_err: 0 };
     let mut i = 0usize;
     let mut consecutive_intr = 0u64;
     loop {
@@ -363,6 +367,25 @@ fn drive<R: Read>(r: &mut R, bufs: &[usize], limit: u64, acc: &mut OutAcc, buf: 
             Err(e) => {
                 o.outcome = "err";
                 o.err = Some((kind_name(e.kind()), e.to_string()));
+                if probe_more > 0 {
+                    // C05: keep reading with a small buffer after the error; data returned now is compared with the
+                    // original like any other (a reader that is not resumable must not hand out bytes)
+                    faultio::PROBING.store(true, Ordering::SeqCst);
+                    let before = acc.len;
+                    for _ in 0..probe_more {
+                        o.reads_after_err += 1;
+                        let small = 7.min(buf.len());
+                        match r.read(&mut buf[..small]) {
+                            Ok(k) if k > 0 => {
+                                o.ok_after_err = true;
+                                acc.push(&buf[..k]);
+                            }
+                            _ => {}
+                        }
+                    }
+                    o.bytes_after_err = acc.len - before;
+                    faultio::PROBING.store(false, Ordering::SeqCst);
+                }
                 if probe {
                     // callers do call again after an error (retry loops, read_to_end wrappers, BufReader): one call with a
                     // small and one with a large buffer, under the same containment; a panic here is reported with
@@ -387,15 +410,15 @@ fn drive<R: Read>(r: &mut R, bufs: &[usize], limit: u64, acc: &mut OutAcc, buf: 
 
 fn ctor_err(e: io::Error) -> DecOut {
     DecOut { outcome: "err", err: Some((kind_name(e.kind()), e.to_string())), stage: "new", api_reads: 0, intr_returns: 0,
-             reads_after_err: 0, ok_after_err: false, eof_then_data: false, unit_count: None }
+             reads_after_err: 0, ok_after_err: false, eof_then_data: false, unit_count: None, bytes_after_err: 0 }
 }
 
-fn run_decoder(d: &DecSpec, srcs: Vec<FaultSource>, bufs: &[usize], limit: u64, acc: &mut OutAcc, buf: &mut [u8], probe: bool) -> DecOut {
+fn run_decoder(d: &DecSpec, srcs: Vec<FaultSource>, bufs: &[usize], limit: u64, acc: &mut OutAcc, buf: &mut [u8], probe: bool, probe_more: u32) -> DecOut {
     let mut srcs = srcs;
     let src = srcs.remove(0);
     match d.kind.as_str() {
         "lzma" => match LZMAReader::new_mem_limit(src, d.mem_limit_kb.unwrap_or(u32::MAX), None) {
-            Ok(mut r) => drive(&mut r, bufs, limit, acc, buf, probe),
+            Ok(mut r) => drive(&mut r, bufs, limit, acc, buf, probe, probe_more),
             Err(e) => ctor_err(e),
         },
         "lzma_raw" => {
@@ -404,31 +427,31 @@ fn run_decoder(d: &DecSpec, srcs: Vec<FaultSource>, bufs: &[usize], limit: u64, 
                 None => LZMAReader::new_with_props(src, d.usize.unwrap_or(u64::MAX), d.props, d.dict, None),
             };
             match r {
-                Ok(mut r) => drive(&mut r, bufs, limit, acc, buf, probe),
+                Ok(mut r) => drive(&mut r, bufs, limit, acc, buf, probe, probe_more),
                 Err(e) => ctor_err(e),
             }
         }
         "lzma2" => {
             let mut r = LZMA2Reader::new(src, d.dict, None);
-            drive(&mut r, bufs, limit, acc, buf, probe)
+            drive(&mut r, bufs, limit, acc, buf, probe, probe_more)
         }
         "lzma2_mt" => {
             let mut r = LZMA2ReaderMT::new(src, d.dict, None, d.workers);
-            let mut o = drive(&mut r, bufs, limit, acc, buf, probe);
+            let mut o = drive(&mut r, bufs, limit, acc, buf, probe, probe_more);
             o.unit_count = Some(r.chunk_count());
             o
         }
         "xz" => {
             let mut r = XZReader::new(src, d.multi);
-            drive(&mut r, bufs, limit, acc, buf, probe)
+            drive(&mut r, bufs, limit, acc, buf, probe, probe_more)
         }
         "lzip" => match LZIPReader::new(src) {
-            Ok(mut r) => drive(&mut r, bufs, limit, acc, buf, probe),
+            Ok(mut r) => drive(&mut r, bufs, limit, acc, buf, probe, probe_more),
             Err(e) => ctor_err(e),
         },
         "lzip_mt" => match LZIPReaderMT::new(src, d.workers) {
             Ok(mut r) => {
-                let mut o = drive(&mut r, bufs, limit, acc, buf, probe);
+                let mut o = drive(&mut r, bufs, limit, acc, buf, probe, probe_more);
                 o.unit_count = Some(r.member_count() as u64);
                 o
             }
@@ -436,7 +459,7 @@ fn run_decoder(d: &DecSpec, srcs: Vec<FaultSource>, bufs: &[usize], limit: u64, 
         },
         "delta" => {
             let mut r = DeltaReader::new(src, d.distance);
-            drive(&mut r, bufs, limit, acc, buf, probe)
+            drive(&mut r, bufs, limit, acc, buf, probe, probe_more)
         }
         "bcj" => {
             let s = d.start_pos;
@@ -450,16 +473,16 @@ fn run_decoder(d: &DecSpec, srcs: Vec<FaultSource>, bufs: &[usize], limit: u64, 
                 "ia64" => BCJReader::new_ia64(src, s),
                 _ => BCJReader::new_riscv(src, s),
             };
-            drive(&mut r, bufs, limit, acc, buf, probe)
+            drive(&mut r, bufs, limit, acc, buf, probe, probe_more)
         }
         "bcj2" => {
             let mut v = vec![src];
             v.extend(srcs);
             let mut r = BCJ2Reader::new(v, d.bcj2_size);
-            drive(&mut r, bufs, limit, acc, buf, probe)
+            drive(&mut r, bufs, limit, acc, buf, probe, probe_more)
         }
         _ => DecOut { outcome: "badjob", err: Some(("?".into(), format!("unknown decoder {}", d.kind))), stage: "new",
-                      api_reads: 0, intr_returns: 0, reads_after_err: 0, ok_after_err: false, eof_then_data: false, unit_count: None },
+                      api_reads: 0, intr_returns: 0, reads_after_err: 0, ok_after_err: false, eof_then_data: false, unit_count: None, bytes_after_err: 0 },
     }
 }
 
@@ -521,9 +544,10 @@ fn decode_case(job: &Job, bases: &Bases) -> Value {
     if let Some(c) = job.alloc_cap {
         alloc::CAP.store(c, Ordering::Relaxed);
     }
+    faultio::PROBING.store(false, Ordering::SeqCst);
     let a0 = alloc::begin();
     let t0 = Instant::now();
-    let r = std::panic::catch_unwind(std::panic::AssertUnwindSafe(|| run_decoder(&job.dec, srcs, &job.bufs, limit, &mut acc, &mut buf, job.probe)));
+    let r = std::panic::catch_unwind(std::panic::AssertUnwindSafe(|| run_decoder(&job.dec, srcs, &job.bufs, limit, &mut acc, &mut buf, job.probe, job.probe_more)));
     let wall = t0.elapsed().as_secs_f64();
     let peak = alloc::peak_since(a0);
     let largest = alloc::LARGEST.load(Ordering::Relaxed);
@@ -546,6 +570,7 @@ fn decode_case(job: &Job, bases: &Bases) -> Value {
             m.insert("api_reads".into(), json!(o.api_reads));
             m.insert("intr_returns".into(), json!(o.intr_returns));
             m.insert("ok_after_err".into(), json!(o.ok_after_err));
+            m.insert("bytes_after_err".into(), json!(o.bytes_after_err));
             m.insert("eof_then_data".into(), json!(o.eof_then_data));
             m.insert("units".into(), json!(o.unit_count));
             if let Some((k, msg)) = o.err {
